@@ -192,6 +192,10 @@ class Monitor:
             # the RETURN trapped (no GOSUB pending in that routine): nothing
             # was popped, and the handler may already run on another frame
             return
+        if op in ('ijmp', 'pop') and self.suspended is not None:
+            # the handler left through RETURN: the suspended call chain (and
+            # its stack entries) is abandoned
+            self.suspended = None
         if op == 'frame':
             self.frames[id(cpu.cur_frame)] = [len(cpu.stack), 0, cpu.cur_frame]
         elif op == 'call':
